@@ -40,6 +40,9 @@ CHECKS["C04"] = ("exploration", "bounded-exhaustive enumeration of a reflect-bui
 CHECKS["C17"] = ("exploration", "exhaustive enumeration of method-receiver assignments x positions x function lists against a reference dispatcher, and of every user-code script up to a length bound against the reference coder models",
   "Generated named types for all 3^4 marshal-side and 3^3 unmarshal-side receiver assignments on 4 underlying kinds x 14 (7) position kinds x caller function lists: logged calls and output equal the documented dispatch order (pointer receivers on non-addressable values, never on nil, untouched ErrUnsupported falls through). Every script of <=L coder operations x return kinds x error handling x positions x carriers: success iff exactly one value was written/read, otherwise an error (never silent success); caller options visible inside the call; Reset panics. Function lists over built-in types in every order and join nesting, reached through interfaces.",
   "Trusted: reference dispatcher and coder models written from the package documentation. Cases run sequentially (generated types log through package-level state).", "2/C17")
+CHECKS["C02"] = ("exploration", "bounded-exhaustive enumeration of types x values x option sets x entry points and of every user-code script / output menu, validated by an independent recognizer",
+  "(a) type universe including invalid UTF-8, NaN, every map key kind, raw jsontext.Value members with malformed or duplicate-carrying content, embedded fallbacks, pointer/interface keys x value domains x 21 option sets x 7 entry points (incl. MarshalEncode at member-name position); (b) every coder script up to length L through MarshalJSONTo/MarshalToFunc at 9 positions, MarshalJSON returning each of 14 raw outputs, MarshalText/AppendText returning each of 10 texts (also append-then-error) at 8 positions. A nil error implies exactly one JSON value valid under the effective Allow* options; otherwise an error; never a panic.",
+  "Trusted: reference recognizer internal/refjson.", "2/C02")
 NOT_YET = {}
 def main():
     props=[json.loads(l)["id"] for l in open("properties.jsonl")]
